@@ -40,6 +40,8 @@ def _geoms(tier):
         out.append(dict(spb=8, W=5, cut=2, extra=0, layout="hdr_after_bat", flen=512))
         out.append(dict(spb=8, W=3, cut=1, extra=0, layout="std", flen=512, at=1022))
         out.append(dict(spb=8, W=3, cut=0, extra=2, layout="bat_after_data", flen=511, at=4094))
+        out.append(dict(spb=8, W=3, cut=3, extra=0, layout="std", flen=512, at=16383))
+        out.append(dict(spb=16, W=3, cut=0, extra=1, layout="hdr_after_bat", flen=512, at=65535))
         out.append(dict(spb=4096, W=3, cut=9, extra=0, layout="std", flen=512, big=True))
         out.append(dict(spb=8192, W=3, cut=0, extra=2, layout="hdr_after_bat", flen=511, big=True))
     else:
